@@ -57,9 +57,27 @@ def obligations(tier, seed):
                 r2 = model.edit(key, tr, Update(chm), Diff.unknown_change(new_full))
                 return (view(r1[0]), r1[1], Diff.tree_primal(r1[2])), (view(r2[0]), r2[1], Diff.tree_primal(r2[2]))
 
-            return sim, edit
+            def edit_move(key, a, vals, a2):
+                """the closure's stored arguments differ from the ones the trace was made with: editing through the closure
+                moves the trace to the closure's stored arguments (here with a Regenerate that does not select the site they feed)"""
+                from genjax import Regenerate
 
-        sim, edit = mk()
+                clo = model(*a2[:nstored])
+                extra = tuple(a[nstored:])
+                new_full = tuple(a2[:nstored]) + extra
+                tr, _ = model.importance(key, C["a"].set(vals[0]) | C["b"].set(vals[1]), a)
+                r1 = clo.edit(key, tr, Regenerate(S.at["b"]), Diff.no_change(extra))
+                r2 = model.edit(key, tr, Regenerate(S.at["b"]), Diff.unknown_change(tuple(a2[:nstored])) + Diff.no_change(extra))
+                sc, rv = model.assess(r1[0].get_choices(), new_full)
+                return (view(r1[0]), r1[1], r1[0].get_score(), r1[0].get_args()), (view(r2[0]), r2[1], sc, new_full)
+
+            return sim, edit, edit_move
+
+        sim, edit, edit_move = mk()
+        if nstored:
+            obs.append(Ob(f"C32/closure-stored{nstored}/edit-moves-stored-args", edit_move, (gfi.KEY, full, (F(0.1), F(-0.4)), (F(0.5), F(0.7), F(1.1))),
+                          assume=lambda k, a, v, a2: [a[2][()] > 0, a2[2][()] > 0],
+                          note="closure with NEW stored arguments editing a trace made with other arguments (Regenerate of a site they do not feed): == underlying edit with the stored arguments tagged changed; new trace agrees with assess at stored+extra"))
         obs.append(Ob(f"C32/closure-stored{nstored}/simulate-assess-importance-project", sim, (gfi.KEY, full, (F(0.1), F(-0.4))), assume=pos,
                       note="gen_fn(*stored) behaves as gen_fn on stored+extra in simulate/assess/importance/project"))
         obs.append(Ob(f"C32/closure-stored{nstored}/edit", edit, (gfi.KEY, full, (F(0.1), F(-0.4)), (F(0.5), F(0.7), F(1.1))),
